@@ -17,6 +17,7 @@ structure World where
   aq : List Nat := []
   rq : List Nat := []
   hung : Bool := false
+  copies : Nat := 1
 
 def popQ : List Nat → Nat × List Nat
   | [] => (0, [])
@@ -24,12 +25,12 @@ def popQ : List Nat → Nat × List Nat
 
 def wCallRf (w : World) : World × CallResult :=
   let (d, rq) := popQ w.rq
-  let (sim, r) := call Chf.Gen.ratingClient w.rf (w.now - w.rf.now) d
+  let (sim, r) := call Chf.Gen.ratingClient w.rf (w.now - w.rf.now) d w.copies
   ({ w with rf := sim, rq := rq, now := max w.now sim.now }, r)
 
 def wCallAbmf (w : World) : World × CallResult :=
   let (d, aq) := popQ w.aq
-  let (sim, r) := call Chf.Gen.abmfClient w.abmf (w.now - w.abmf.now) d
+  let (sim, r) := call Chf.Gen.abmfClient w.abmf (w.now - w.abmf.now) d w.copies
   ({ w with abmf := sim, aq := aq, now := max w.now sim.now }, r)
 
 def isTimeout : CallResult → Bool
@@ -74,6 +75,7 @@ def peerSteps : List String → World → List String → Option (List String)
     | "A", some d => peerSteps rest { w with aq := w.aq ++ [d] } acc
     | "R", some d => peerSteps rest { w with rq := w.rq ++ [d] } acc
     | "W", some d => peerSteps rest { w with now := w.now + d } acc
+    | "D", some k => if 1 ≤ k ∧ k ≤ 8 then peerSteps rest { w with copies := k } acc else none
     | "U", some _ =>
       if w.hung then peerSteps rest w ("u=skipped" :: acc)
       else
@@ -85,7 +87,7 @@ def peerSteps : List String → World → List String → Option (List String)
     | "C", none =>
       let conns := w.abmf.w.st.conns.length + w.rf.w.st.conns.length
       let tasks := tasks Chf.Gen.abmfClient w.abmf.w + tasks Chf.Gen.ratingClient w.rf.w
-      peerSteps rest w (s!"c={conns}:{tasks}:{w.abmf.w.orphans + w.rf.w.orphans}" :: acc)
+      peerSteps rest w (s!"c={conns}:{tasks}:{w.abmf.w.orphans + w.rf.w.orphans}:{w.abmf.w.st.blocked + w.rf.w.st.blocked}" :: acc)
     | _, _ => none
 
 def peerOp : Tok → String
